@@ -50,9 +50,16 @@ type Model struct {
 	NIgnored      int
 	NCookiePairs  int
 	NUnmatchedOut int
+	// Known counts occurrences of recorded (not repaired) defects, by signature.
+	Known map[string]int
 }
 
-func NewModel(sh *Shadow) *Model { return &Model{Sh: sh, cookies: map[uint32]string{}} }
+// SigF5 is the signature of known finding F5 (see known_findings.json).
+const SigF5 = "delete-self-swallowed: Dir(path) is listed but that parent did not report the removal"
+
+func NewModel(sh *Shadow) *Model {
+	return &Model{Sh: sh, cookies: map[uint32]string{}, Known: map[string]int{}}
+}
 
 func (m *Model) BySwd(swd int) *MWatch {
 	for _, w := range m.Live {
@@ -114,7 +121,7 @@ func OpOf(mask uint32) fsnotify.Op {
 // deliver, updating watch lifetimes on the way.
 func (m *Model) Feed(raws []Raw) []Ev {
 	var out []Ev
-	for _, r := range raws {
+	for i, r := range raws {
 		m.Trace = append(m.Trace, r)
 		if r.Mask&unix.IN_Q_OVERFLOW != 0 {
 			m.Overflow = true
@@ -145,8 +152,27 @@ func (m *Model) Feed(raws []Raw) []Ev {
 		if r.Mask&unix.IN_DELETE_SELF != 0 {
 			m.NDeleteSelf++
 			m.end(w) // the kernel drops the watch by itself
-			if w.ParentReported {
+			// "reporting Remove unless the watched parent directory already
+			// did": for a file the parent's IN_DELETE comes first, for a
+			// directory it follows within the same syscall.
+			parent := m.ByPath(filepath.Dir(w.Path))
+			reports := w.ParentReported
+			if parent != nil && !reports {
+				for _, n := range raws[i+1:] {
+					if int(n.Wd) == parent.Swd && n.Mask&unix.IN_DELETE != 0 && n.Name == filepath.Base(w.Path) {
+						reports = true
+					}
+				}
+			}
+			if parent != nil && reports {
 				m.NDoubleReport++
+				continue
+			}
+			if parent != nil && IsKnown(SigF5) {
+				// recorded defect: the implementation swallows the event whenever
+				// the parent's spelling is listed. Adopt that for this signature
+				// only, and count it.
+				m.Known[SigF5]++
 				continue
 			}
 		}
